@@ -348,6 +348,18 @@ func reslicedBase(v ssa.Value) *ssa.Slice {
 			}
 		case *ssa.ChangeType:
 			return walk(x.X, d+1)
+		case *ssa.UnOp:
+			// a list variable that lives in a cell (captured by a closure): whatever was assigned to it, anywhere
+			if al := cellOf(x); al != nil {
+				if _, isSl := x.Type().Underlying().(*types.Slice); isSl {
+					stores, _ := cellStores(al)
+					for _, st := range stores {
+						if r := walk(st.Val, d+1); r != nil {
+							return r
+						}
+					}
+				}
+			}
 		}
 		return nil
 	}
@@ -612,6 +624,8 @@ func describeTarget(addr ssa.Value) string {
 }
 
 func runC14(w *World, r *Report) {
+	entryPointsKeepNoState(w, r, "C14", compileEntryRoots(w), "reachable from compile", "code that runs once per requested target writes package-level storage: what a target gets depends on which targets were handled before it")
+
 	subjects, err := c14Subjects(w)
 	if err != nil {
 		r.fatal("%v", err)
